@@ -522,6 +522,66 @@ func TestCtxWriter(t *testing.T) {
 	})
 }
 
+// interp.Eval stacks one CtxWriter per nested evaluation: writer k wraps writer
+// k-1 and carries the context of evaluation k (a child of context k-1).  After
+// evaluation k is cancelled, nothing written through writer k or a writer
+// above it may reach the output, while writers below it keep working (seed
+// C20-5: a writer that wrapped another CtxWriter forwarded to it without
+// checking its own context).
+func TestCtxWriterNested(t *testing.T) {
+	harness.Rapid(t, 3000, 100000, func(rt *rapid.T, c *harness.Case) {
+		depth := rapid.IntRange(2, 5).Draw(rt, "depth")
+		var buf bytes.Buffer
+		ctxs := make([]context.Context, depth)
+		cancels := make([]context.CancelFunc, depth)
+		ws := make([]io.Writer, depth)
+		parent := context.Background()
+		var below io.Writer = &buf
+		for k := 0; k < depth; k++ {
+			ctxs[k], cancels[k] = context.WithCancel(parent)
+			ws[k] = iox.CtxWriter{Writer: below, Ctx: ctxs[k]}
+			parent, below = ctxs[k], ws[k]
+		}
+		defer func() {
+			for _, cf := range cancels {
+				cf()
+			}
+		}()
+		cancelledFrom := depth // writers >= cancelledFrom are dead
+		var want []byte
+		suppressed, passedBelow := false, false
+		n := rapid.IntRange(2, 14).Draw(rt, "n")
+		for i := 0; i < n; i++ {
+			if cancelledFrom > 0 && rapid.IntRange(0, 3).Draw(rt, "cancel") == 0 {
+				k := rapid.IntRange(0, cancelledFrom-1).Draw(rt, "level")
+				if rapid.IntRange(0, 2).Draw(rt, "innermost") > 0 {
+					k = cancelledFrom - 1 // an interrupt cancels the innermost running evaluation
+				}
+				cancels[k]()
+				cancelledFrom = k
+				c.Stepf("cancel level %d", k)
+				continue
+			}
+			k := rapid.IntRange(0, depth-1).Draw(rt, "writer")
+			p := rapid.SliceOfN(rapid.Byte(), 1, 12).Draw(rt, "p")
+			m, err := ws[k].Write(p)
+			c.Stepf("write through %d: %x -> %d,%v", k, p, m, err)
+			if k >= cancelledFrom {
+				suppressed = true
+				c.Check(err != nil && m == 0, "ctxwriter:nested-write-after-cancel", "a write through writer %d (evaluations >= %d are cancelled) returned %d,%v", k, cancelledFrom, m, err)
+			} else {
+				if cancelledFrom < depth {
+					passedBelow = true
+				}
+				c.Check(err == nil && m == len(p), "ctxwriter:nested-write-below-cancel", "a write through writer %d (only evaluations >= %d are cancelled) returned %d,%v", k, cancelledFrom, m, err)
+				want = append(want, p...)
+			}
+			c.Check(bytes.Equal(buf.Bytes(), want), "ctxwriter:nested-bytes", "output %x want %x", buf.Bytes(), want)
+		}
+		c.SetNonTrivial(suppressed && passedBelow)
+	})
+}
+
 // ---------------------------------------------------------------------------
 // (iii) end to end nested REPL
 
